@@ -123,3 +123,38 @@ def seqs_from_remote(trace: dict) -> Dict[str, List[tuple]]:
         if e.get("op") == "call" and e.get("kind") == "step":
             out.setdefault(e["sid"], []).append((e["time"], e.get("k", 0), vsims.canon(e["inputs"])))
     return out
+
+
+def merged_trace(rt: dict) -> dict:
+    """One global event list from the per-process logs, ordered by the system-wide monotonic
+    clock (every cross-process order the monitors rely on is also a happens-before through
+    mosaik's sockets, so the stamps are consistent with it)."""
+    evs = []
+    for sid, lst in rt["remote_events"].items():
+        for n, e in enumerate(lst):
+            evs.append((e.get("ns", 0), sid, n, e))
+    evs.sort(key=lambda x: (x[0], x[1], x[2]))
+    out = []
+    for _, _, _, e in evs:
+        e = dict(e)
+        e["i"] = len(out)
+        out.append(e)
+    kind = rt["outcome"]["kind"]
+    return {"events": out, "outcome": rt["outcome"] if kind != "watchdog" else {"kind": "error", "type": "Watchdog", "msg": rt["outcome"].get("msg", "")},
+            "logs": rt.get("logs", []), "schedule": [], "branching": [],
+            "stats": {"decisions": 0, "max_inflight": 0, "max_inflight_sims": _max_inflight(out), "idle_points": 0,
+                      "timer_advances": 0, "vclock": 0.0, "wall_s": rt.get("wall_s", 0)}}
+
+
+def _max_inflight(events) -> int:
+    cur = set()
+    mx = 0
+    for e in events:
+        if e.get("op") == "call" and e.get("kind") == "step":
+            cur.add(e["sid"])
+            mx = max(mx, len(cur))
+        elif e.get("op") == "ret" and e.get("kind") in ("get_data",):
+            cur.discard(e["sid"])
+        elif e.get("op") == "ret" and e.get("kind") == "step":
+            pass
+    return mx
